@@ -76,6 +76,25 @@ def r4_pool_keys(ctx):
         ctx.ob("R13.4", "Session::%s:is-the-seq-field" % fn, ok, cs[0].site if cs else "", "Session::%s %ss self.seq" % (fn, kind) if ok else "Session::%s does not %s self.seq" % (fn, kind))
 
 
+REQUEST_PATH = ("client::client::", "client::socks5::", "client::http_proxy::", "client::udp_client::")
+
+
+def r5_request_path_never_closes(ctx):
+    """a failed request gives up its stream, not the session it ran on"""
+    n = 0
+    bad = []
+    for key, body in ctx.P.scan():
+        if not key.startswith(REQUEST_PATH):
+            continue
+        n += 1
+        for c in calls_norm(body, "Session::close"):
+            bad.append((key, c))
+    ctx.floor("R13.5", "bodies on the client request path", n, 20)
+    ctx.ob("R13.5", "request-path:never-closes-a-session", not bad, bad[0][1].site if bad else "",
+           "%d request-path bodies examined: Session::close is called only by the session's own tasks and the pool's reaper" % n if not bad else
+           "%s calls Session::close: one failing request (unreachable destination, SYNACK timeout) tears down the shared session — the tunnels of the other requests on it die and the next request has to dial" % bad[0][0].split("::{closure")[0])
+
+
 def run(ctx):
     body = co(ctx, "R13.1", CL + "create_stream")
     if body is not None:
@@ -97,6 +116,9 @@ def run(ctx):
             ctx.missing("R13.1", "match on get_idle_session in create_stream")
     r3_skip_closed(ctx)
     r4_pool_keys(ctx)
+    r5_request_path_never_closes(ctx)
+    from . import C12
+    C12.r2_to_r6_reapers(ctx, only=("R12.2", "R12.3"))    # the idle minimum keeps *live* sessions: a reaper that counts dead ones closes the healthy session behind them
     # R13.2: who re-inserts
     callers = [e for e in ctx.cg.callers("client::session_pool::SessionPool::add_idle_session") if e.kind in ("call", "spawn")]
     owners = sorted({e.src.split("::{closure")[0] for e in callers})
